@@ -4,8 +4,9 @@ from harness.common import bud
 from harness.props import c01
 
 PROP = "C05"
-MODULES = ["CassisModel.Properties.C05", "CassisModel.Properties.C01"]
+MODULES = ["CassisModel.Properties.C05", "CassisModel.Properties.C01", "CassisModel.Properties.C05Perm"]
 THEOREMS = [
+    "Cassis.Xmi.xmi_load_perm_flat",
     "Cassis.Xmi.lookupFs_perm",
     "Cassis.Xmi.resolveIds_perm",
     "Cassis.Xmi.pass1_sofas_perm",
@@ -14,8 +15,8 @@ THEOREMS = [
     "Cassis.Json.lookup_perm",
 ]
 ASSUMPTIONS = [
-    "proved: reference resolution in both loaders depends only on the id-keyed map of the parsed structures, which is the same (as a map) for every order of the elements of a document with distinct ids; embedded types are created supertypes first whatever the declaration order",
-    "NOT proved: equality of the complete loaded CAS across layouts (it is checked per run: every layout of a document must load to the same canonical dump, equal to an independent reading of the document and to the model's loader) (partial)",
+    "proved end to end on the model (XMI, flat fragment): every permutation of the elements of a written document loads, and loads to the same structures, ids, types, feature contents, views (initial view first) and generator values (xmi_load_perm_flat); reference resolution in both loaders depends only on the id-keyed map of the parsed structures; embedded types are created supertypes first whatever the declaration order",
+    "NOT proved: layout independence for documents with array/list features and for the JSON forms (it is checked per run: every layout of a document must load to the same canonical dump, equal to an independent reading of the document and to the model's loader) (partial)",
     "namespace prefixes, attribute order, whitespace/pretty printing, escaping and JSON member order do not exist in the abstract documents of the model: they are lxml's/json's business and are exercised through the independent writer only",
     "JSON documents in the id-keyed object form with a sofa byte array (finding J7) are outside the generators",
 ]
